@@ -52,6 +52,8 @@ TRUSTED = [
     "response, synchronous stand-in for asyncio.run_coroutine_threadsafe (cross-checked against a real loop thread)",
 ]
 
+BUDGET = {"stalls": 0, "max": 4}      # per run: after this many stalled scenarios nothing more is started
+WATCHDOG = 6.0            # wall-clock seconds a scenario step that drives a real thread may take
 STALL_TIMEOUT = 0.06      # what the library's DEFAULT_TIMEOUT (10 s) is scaled to in the thread-hop runs
 STALL = 0.25              # how long a stalled producer delivers nothing (> the scaled timeout)
 
@@ -290,6 +292,32 @@ class _Abort(Exception):
     """Raised inside the parked download thread when a session is torn down."""
 
 
+class Stalled(Exception):
+    """A real thread driven by the harness neither delivered, nor signalled end or error,
+    within the wall-clock watchdog."""
+
+
+def watchdog_call(fn, *args):
+    """Run fn(*args) in a daemon thread; give up (Stalled) after WATCHDOG seconds."""
+    box = {}
+
+    def work():
+        try:
+            box["value"] = fn(*args)
+        except BaseException as e:      # noqa: handed to the caller
+            box["error"] = e
+
+    t = threading.Thread(target=work, daemon=True)
+    t.start()
+    t.join(WATCHDOG)
+    if t.is_alive():
+        BUDGET["stalls"] += 1
+        raise Stalled("call did not return within %.0f s" % WATCHDOG)
+    if "error" in box:
+        raise box["error"]
+    return box.get("value")
+
+
 class WouldWait(Exception):
     """The consumer's read() would have to wait for the download thread."""
 
@@ -389,8 +417,9 @@ class IceRig:
         self.races = 0
         self.empty_reads = 0
         self.t = 0.0
-        self.m_go = threading.Semaphore(0)
-        self.d_go = threading.Semaphore(0)
+        self.cond = threading.Condition()
+        self.turn = "D"             # whose turn it is to run: "D" download thread, "M" main thread
+        self.stalled = False        # D did not come back to a scheduling point in time (watchdog)
         client = object.__new__(A.PatchedIceCastClient)
         client.url = "http://verif.invalid/stream"
         client.error_message = None
@@ -406,29 +435,46 @@ class IceRig:
         client._download_thread = self.thread
         watch_buffer(buffer, self)
         self.thread.start()
-        self._wait()
+        try:
+            self._wait()
+        except Stalled:
+            pass
 
     # -- handshake --------------------------------------------------------------------
     def _main(self):
         try:
             self.client._stream_wrapper()
         finally:
-            self.parked = "finished"
-            self.m_go.release()
+            with self.cond:
+                self.parked = "finished"
+                self.turn = "M"
+                self.cond.notify_all()
 
     def _wait(self):
-        if not self.m_go.acquire(timeout=20):
-            raise RuntimeError("download thread did not reach a scheduling point")
+        """M waits until D is parked again; the watchdog turns a download thread that
+        neither parks nor finishes into the outcome `stalled` (it is then left alone)."""
+        with self.cond:
+            ok = self.cond.wait_for(lambda: self.turn == "M", timeout=WATCHDOG)
+        if not ok:
+            self.stalled = True
+            BUDGET["stalls"] += 1
+            raise Stalled("download thread did not reach a scheduling point within %.0f s" % WATCHDOG)
 
     def park(self, kind):
-        self.parked = kind
-        self.m_go.release()
-        self.d_go.acquire()
+        with self.cond:
+            self.parked = kind
+            self.turn = "M"
+            self.cond.notify_all()
+            self.cond.wait_for(lambda: self.turn == "D")
         if self.abort:
             raise _Abort()
 
     def resume(self):
-        self.d_go.release()
+        if self.stalled:
+            raise Stalled("download thread stalled earlier")
+        with self.cond:
+            self.turn = "D"
+            self.cond.notify_all()
         self._wait()
 
     def in_downloader(self):
@@ -494,11 +540,11 @@ class IceRig:
 
     def close(self):
         self.abort = True
-        if self.parked != "finished":
-            self.client._stop_stream = True
-            self.d_go.release()
-            self.m_go.acquire(timeout=20)
-        self.thread.join(20)
+        self.client._stop_stream = True
+        with self.cond:
+            self.turn = "D"
+            self.cond.notify_all()
+        self.thread.join(0.5 if self.stalled else 5)     # daemon thread: a stuck one is left behind
 
 
 # ---------------------------------------------------------------------------------------
@@ -626,7 +672,11 @@ class Session:
                 if stalled:
                     self.src.stall_next = STALL
                 try:
+                    if self.env.thread is not None:
+                        return self._data(watchdog_call(self.w.read, op[1]))
                     return self._data(self.w.read(op[1]))
+                except Stalled:
+                    raise
                 except Exception:
                     if stalled:
                         time.sleep(STALL + 0.1)   # the consumer carries on once the producer has caught up
@@ -705,6 +755,8 @@ class Reference:
 
     def step(self, i, op, token, data):
         name = op[0]
+        if token == "err:Stalled":
+            return      # judged at the end of the history: bytes still owed and nothing moves = loss
         if token in ("err:WouldWait", "err:OperationTimeoutError"):
             return      # the consumer merely has to wait / gave up waiting: no bytes were delivered,
                         # the cursor stays where it is and later reads must continue from there
@@ -754,9 +806,25 @@ def run_history(env, h, want_lines=True):
         sess.close()
 
 
+class _Abandon(Exception):
+    """The rest of a history is not executed: a real thread stalled."""
+
+
 def _run_history(sess, h):
-    ref = Reference(h)
-    ops_done, lines, flags = [], [], set()
+    try:
+        return _run_history_inner(sess, h, [], [], set(), Reference(h))
+    except _Abandon as a:
+        ops_done, lines, flags, ref = a.args
+        if not ref.problems:
+            owed = len(ref.stream()) - ref.cur
+            if owed > 0:
+                ref.problem("stalled", len(ops_done) - 1, ops_done[-1],
+                            "the stream neither delivers nor signals its end or an error (no progress within %.0f s) "
+                            "at offset %d although %d more bytes are owed" % (WATCHDOG, ref.cur, owed))
+        return ops_done, lines, ref.problems, flags
+
+
+def _run_history_inner(sess, h, ops_done, lines, flags, ref):
     seek_seen = False
     ice = h["target"] == "ice"
 
@@ -767,6 +835,9 @@ def _run_history(sess, h):
         ops_done.append(op)
         lines.append(token + " " + sess.obs())
         ref.step(len(ops_done) - 1, op, token, sess.last if token.startswith("d:") else b"")
+        if token == "err:Stalled":
+            flags.add("stalled")
+            raise _Abandon(ops_done, lines, flags, ref)
         b = sess.buffer
         try:
             if b.remaining == 0:
@@ -836,21 +907,26 @@ def _run_history(sess, h):
                 while limit > 0 and not eof:
                     limit -= 1
                     turn += 1
-                    progress = do(["fetch", blk]) == "f:1"
+                    # progress = the download side took bytes from the response or the consumer
+                    # received bytes (a turn that moves nothing is not progress)
+                    off0, progress = sess.src.off, False
+                    do(["fetch", blk])
                     if gap == 1 or (gap == 2 and turn % 2 == 0):
                         progress = consume() or progress
                     if eof:
                         break
-                    progress = (do(["store"]) == "f:1") or progress
-                    progress = consume() or progress
+                    do(["store"])
+                    progress = consume() or progress or sess.src.off != off0
                     stalls = 0 if progress else stalls + 1
                     if stalls > 2:
                         break
             if not ref.problems:
                 owed = len(ref.stream()) - ref.cur
                 if owed > 0:
-                    ref.problem("premature-eof", len(ops_done) - 1, ops_done[-1],
-                                "reads dried up at offset %d although %d more bytes are owed" % (ref.cur, owed))
+                    kind = "stalled" if ice and not eof else "premature-eof"
+                    ref.problem(kind, len(ops_done) - 1, ops_done[-1],
+                                "reads dried up at offset %d although %d more bytes are owed%s" % (
+                                    ref.cur, owed, " and the end of the stream is never signalled" if kind == "stalled" else ""))
     return ops_done, lines, ref.problems, flags
 
 
@@ -994,10 +1070,26 @@ def build_history(env, rng, thorough, big=False, targets=None, metaint=None):
 
 # ---------------------------------------------------------------------------------------
 
+def exhausted():
+    """Too many scenarios stalled: start nothing more (the check must end in bounded time)."""
+    return BUDGET["stalls"] >= BUDGET["max"]
+
+
+def build_many(env, rng, n, thorough, **kw):
+    out = []
+    for _ in range(n):
+        if exhausted():
+            break
+        out.append(build_history(env, rng, thorough, **kw))
+    return out
+
+
 def check_histories(ctx, env, histories, tag):
     """Run histories on the real code, then batch them through the Lean driver."""
     lean_lines, per = [], []
     for h in histories:
+        if exhausted():
+            break
         ops_done, lines, problems, flags = run_history(env, h)
         per.append((h, ops_done, lines, problems, flags, len(lean_lines)))
         lean_lines.append(reset_line(h))
@@ -1048,6 +1140,65 @@ def strip(h):
 
 # ---------------------------------------------------------------------------------------
 # the wrappers as the library itself wires them: BufferedIOBaseSource.open
+
+import concurrent.futures
+
+
+class _DaemonExecutor(concurrent.futures.ThreadPoolExecutor):
+    """Executor whose jobs run in daemon threads: a job blocked for ever in the code under
+    test can be abandoned and never keeps the process alive."""
+
+    def __init__(self):
+        super().__init__(max_workers=1)
+
+    def submit(self, fn, *args, **kwargs):
+        fut = concurrent.futures.Future()
+
+        def work():
+            if not fut.set_running_or_notify_cancel():
+                return
+            try:
+                fut.set_result(fn(*args, **kwargs))
+            except BaseException as e:      # noqa: handed to the waiter
+                fut.set_exception(e)
+
+        threading.Thread(target=work, daemon=True).start()
+        return fut
+
+    def shutdown(self, wait=True, **kwargs):
+        pass
+
+
+SCENARIO_WATCHDOG = 12.0
+
+
+def run_scenario(make_coro):
+    """Run an asyncio scenario on its own loop in a daemon thread.  Returns None, an error
+    text, or "stalled" when it did not finish within the wall-clock watchdog (it is then
+    abandoned; all its threads are daemons)."""
+    box = {}
+
+    def work():
+        loop = asyncio.new_event_loop()
+        loop.set_default_executor(_DaemonExecutor())
+        try:
+            loop.run_until_complete(make_coro())
+        except Exception as e:
+            box["error"] = type(e).__name__ + ": " + str(e)[:120]
+        finally:
+            try:
+                loop.close()
+            except Exception:
+                pass
+
+    t = threading.Thread(target=work, daemon=True)
+    t.start()
+    t.join(SCENARIO_WATCHDOG)
+    if t.is_alive():
+        BUDGET["stalls"] += 1
+        return "stalled"
+    return box.get("error")
+
 
 class _MiniaudioShim:
     """Stands in for `miniaudio` inside audio_source: an identity "decoder" whose output is
@@ -1110,23 +1261,14 @@ def run_factory(f):
             if not data:
                 break
 
-    loop = asyncio.new_event_loop()
-    error = None
     A.miniaudio = _MiniaudioShim(saved["miniaudio"], capture, lock)
     A.get_metadata = fake_get_metadata
     try:
-        loop.run_until_complete(asyncio.wait_for(scenario(), 60))
-    except Exception as e:
-        error = type(e).__name__ + ": " + str(e)[:120]
+        error = run_scenario(scenario)
     finally:
         for k, v in saved.items():
             setattr(A, k, v)
-        try:
-            loop.run_until_complete(loop.shutdown_default_executor())
-        except Exception:
-            pass
-        loop.close()
-    return tokens, bytes(capture), error
+    return list(tokens), bytes(capture), error
 
 
 def factory_model_lines(f, ndrain):
@@ -1174,6 +1316,9 @@ def check_factories(ctx, fs):
     from pyatv.protocols.raop import audio_source as A
     results, lines, starts = [], [], []
     for f in fs:
+        if exhausted():
+            fs = fs[:len(results)]
+            break
         tokens, got, error = run_factory(f)
         ndrain = (len(got) - 44) // max(1, f["chunk"]) + 3 if len(got) >= 44 else 0
         results.append((tokens, got, error, ndrain))
@@ -1198,7 +1343,12 @@ def check_factories(ctx, fs):
         if error is None and model_stream and not model_stream[0].startswith("d:"):
             ctx.disagree(case, "stream", model_stream[:2], where="factory stream")
         # direct oracle: the decoder must receive the whole source, from its first byte
-        if error is not None:
+        if error == "stalled":
+            if got != S:
+                ctx.fail("factory:stalled", case, "no progress within %.0f s after %d of %d bytes" % (SCENARIO_WATCHDOG, len(got), len(S)),
+                         "the stream delivers its bytes or signals its end or an error",
+                         "after the metadata probe %r the stream stalled: bytes are owed and nothing moves" % (f["probe"],))
+        elif error is not None:
             ctx.fail("factory:exception", case, error, "the factory opens the stream and the decoder can read it",
                      "BufferedIOBaseSource.open / reading raised " + error)
         elif got != S:
@@ -1219,6 +1369,12 @@ def check_factories(ctx, fs):
 
 def run(ctx, only=None):
     rng = ctx.rng
+    BUDGET["stalls"] = 0
+
+    def stop():
+        # generation stops once the oracle has failing inputs or scenarios keep stalling
+        return bool(ctx.failures) or exhausted()
+
     env = Env()
     try:
         if only is not None:
@@ -1227,31 +1383,38 @@ def run(ctx, only=None):
         check_histories(ctx, env, [dict(w) for w in WITNESSES], "sync")
         n = ctx.scale(8000, 80000)
         g = rng.fork("histories")
-        while n > 0:
-            m = min(n, 4000)
-            check_histories(ctx, env, [build_history(env, g, ctx.thorough) for _ in range(m)], "sync")
+        while n > 0 and not stop():
+            m = min(n, 2000)
+            check_histories(ctx, env, build_many(env, g, m, ctx.thorough), "sync")
             n -= m
-        gb = rng.fork("production-sizes")
-        check_histories(ctx, env, [build_history(env, gb, ctx.thorough, big=True) for _ in range(ctx.scale(16, 60))], "sync")
+        if not stop():
+            gb = rng.fork("production-sizes")
+            check_histories(ctx, env, build_many(env, gb, ctx.scale(16, 60), ctx.thorough, big=True), "sync")
         gi = rng.fork("icy-production")
-        hs = []
         for rep in range(ctx.scale(2, 6)):
             for m in (1, 16, 8191, 8192, 8193, 16000, 65536):
-                hs.append(build_history(env, gi, ctx.thorough, big=True, targets=["ice"], metaint=m))
-        check_histories(ctx, env, hs, "sync")
+                if stop():
+                    break
+                check_histories(ctx, env, build_many(env, gi, 1, ctx.thorough, big=True, targets=["ice"], metaint=m), "sync")
     finally:
         env.close()
+    if stop():
+        return
     # the wiring the library itself performs (real loop, real executor threads)
     gf = rng.fork("factory")
     check_factories(ctx, [dict(w) for w in FACTORY_WITNESSES] + [gen_factory(gf) for _ in range(ctx.scale(40, 300))])
+    if stop():
+        return
     gh = rng.fork("factory-http")
     check_http_factories(ctx, [gen_http_factory(gh) for _ in range(ctx.scale(12, 60))])
+    if stop():
+        return
     # a sample of stream-reader histories through a real event-loop thread
     env = Env(thread_hop=True)
     try:
         gt = rng.fork("thread-hop")
         hs = [dict(w) for w in STALL_WITNESSES]
-        hs += [build_history(env, gt, ctx.thorough, targets=["srw", "ssw"]) for _ in range(ctx.scale(40, 200))]
+        hs += build_many(env, gt, ctx.scale(40, 200), ctx.thorough, targets=["srw", "ssw"])
         check_histories(ctx, env, hs, "thread")
     finally:
         env.close()
@@ -1324,24 +1487,15 @@ def run_http_factory(f):
         finally:
             await inst.close()
 
-    loop = asyncio.new_event_loop()
-    error = None
     A.miniaudio = _MiniaudioShim(saved["miniaudio"], bytearray(), threading.Lock())
     A.get_metadata = fake_get_metadata
     A.requests = FakeRequests(_PlainResponse(src, h["metaint"]))
     A.time = _FastTime()
     try:
-        loop.run_until_complete(asyncio.wait_for(scenario(), 60))
-    except Exception as e:
-        error = type(e).__name__ + ": " + str(e)[:120]
+        error = run_scenario(scenario)
     finally:
         for k, v in saved.items():
             setattr(A, k, v)
-        try:
-            loop.run_until_complete(loop.shutdown_default_executor())
-        except Exception:
-            pass
-        loop.close()
     return bytes(capture), audio, error
 
 
@@ -1370,11 +1524,18 @@ def gen_http_factory(rng):
 
 def check_http_factories(ctx, fs):
     for f in fs:
+        if exhausted() or ctx.failures:
+            break
         got, audio, error = run_http_factory(f)
         case = dict(f, target="factory")
         ctx.case(["factory-http", f], bool(f["probe"]), sample=None)
         ctx.note("target:factory-http")
-        if error is not None:
+        if error == "stalled":
+            if got != audio:
+                ctx.fail("factory:stalled", case, "no progress within %.0f s after %d of %d bytes" % (SCENARIO_WATCHDOG, len(got), len(audio)),
+                         "the stream delivers its bytes or signals its end or an error",
+                         "after the metadata probe %r the HTTP stream stalled: bytes are owed and nothing moves" % (f["probe"],))
+        elif error is not None:
             ctx.fail("factory:exception", case, error, "the factory opens the stream and the decoder can read it",
                      "InternetSource.open / reading raised " + error)
         elif got != audio:
@@ -1410,6 +1571,8 @@ def shrink(ctx, failure):
     """Greedy: drop operations / oracle entries while the same kind of failure remains."""
     want = failure["sig"].split(":", 1)[1]
     h = dict(failure["case"])
+    if want == "stalled":
+        return failure          # every attempt would cost a watchdog period
     if h.get("target") == "factory":
         changed = True
         while changed:      # drop probe operations while the decoder still misses bytes
